@@ -638,4 +638,211 @@ Section CGProofs.
   Proof.
     intros o flags limit k items. unfold cg. rewrite cg_erase_run. reflexivity.
   Qed.
+
+  (** ================= 3. only improves (C11) ================= *)
+  Definition objv (o : objective) (r : option (bins A)) : option Z :=
+    option_map (fun b => value o (sums b) false) r.
+
+  (** l1 <= l2 with None = no limit = infinity *)
+  Definition cg_lim_le (l1 l2 : option nat) : Prop :=
+    match l2 with
+    | None => True
+    | Some m => match l1 with Some n => (n <= m)%nat | None => False end
+    end.
+
+  Section Simulation.
+    Variables (keep : bool) (o : objective) (flags : cg_flags) (l1 l2 : option nat) (k : nat)
+              (glb : option Z).
+    Hypothesis Hl : cg_lim_le l1 l2.
+    Notation explore l := (cg_explore valueof keep o flags l k glb).
+
+    Lemma cg_enter_sim (st st1 : @cg_state A) : cg_enter l1 st = Some st1 -> cg_enter l2 st = Some st1.
+    Proof.
+      unfold cg_enter. destruct (cg_stop st); [discriminate|]. cbv zeta. cbn [cg_ticks].
+      unfold cg_lim_le in Hl.
+      destruct l1 as [n|], l2 as [m|]; try contradiction; auto.
+      - destruct (Nat.ltb n _) eqn:E1; [discriminate|]. destruct (Nat.ltb m _) eqn:E2; auto.
+        apply Nat.ltb_lt in E2. apply Nat.ltb_ge in E1. lia.
+      - destruct (Nat.ltb n _); [discriminate|auto].
+    Qed.
+
+    (** run 1 (smaller limit) and run 2 are in the same state, or run 1 has stopped and run 2
+        is at least as good *)
+    Definition cg_sim (st1 st2 : @cg_state A) : Prop :=
+      st1 = st2 \/
+      (cg_stop st1 = true /\ better_or_equal (cg_bestv st2) (cg_bestv st1) /\
+       forall f, cg_first st1 = Some f -> cg_first st2 = Some f).
+
+    Lemma cg_sim_right rest d b st1 st2 :
+      cg_stop st1 = true -> better_or_equal (cg_bestv st2) (cg_bestv st1) ->
+      (forall f, cg_first st1 = Some f -> cg_first st2 = Some f) ->
+      cg_sim (explore l1 rest d b st1) (explore l2 rest d b st2).
+    Proof.
+      intros Hs Hb Hf. rewrite (cg_explore_stopped keep o flags l1) by exact Hs.
+      right. split; [exact Hs|]. split.
+      - eapply boe_trans; [apply cg_bestv_mono|exact Hb].
+      - intros f E. apply cg_first_keep. apply Hf. exact E.
+    Qed.
+
+    Lemma cg_sim_none rest d b st : cg_sim (cg_halt st) (explore l2 rest d b st).
+    Proof.
+      right. destruct (cg_halt_fields st) as (_ & Hbv & Hfi & _).
+      split; [apply cg_halt_stop|]. split.
+      - rewrite Hbv. apply cg_bestv_mono.
+      - intros f E. rewrite Hfi in E. apply cg_first_keep. exact E.
+    Qed.
+
+    Lemma cg_sim_leaf b st : cg_sim (cg_leaf o l1 glb b st) (cg_leaf o l2 glb b st).
+    Proof.
+      destruct (cg_enter l1 st) as [s|] eqn:E1.
+      - rewrite !cg_leaf_eq, E1, (cg_enter_sim _ _ E1). left. reflexivity.
+      - rewrite (cg_leaf_eq o l1), E1.
+        change (cg_leaf o l2 glb b st) with (explore l2 [] O b st). apply cg_sim_none.
+    Qed.
+
+    Lemma cg_sim_fold t depth
+      (IH : forall d b st1 st2, cg_sim st1 st2 -> cg_sim (explore l1 t d b st1) (explore l2 t d b st2)) :
+      forall cs st1 st2, cg_sim st1 st2 ->
+      cg_sim (fold_left (fun s c => explore l1 t depth c s) cs st1)
+             (fold_left (fun s c => explore l2 t depth c s) cs st2).
+    Proof.
+      induction cs as [|c cs IHcs]; intros st1 st2 H; cbn [fold_left]; auto.
+    Qed.
+
+    Lemma cg_sim_explore : forall rest d b st1 st2, cg_sim st1 st2 ->
+      cg_sim (explore l1 rest d b st1) (explore l2 rest d b st2).
+    Proof.
+      induction rest as [|x t IH]; intros d b st1 st2 [E|(Hs & Hb & Hf)];
+        try (apply cg_sim_right; assumption); subst st2.
+      - rewrite !cg_explore_nil. apply cg_sim_leaf.
+      - destruct (cg_enter l1 st1) as [s|] eqn:E1.
+        + rewrite !cg_explore_cons, E1, (cg_enter_sim _ _ E1).
+          destruct (cg_h3_cond _ _ _ _); [apply cg_sim_leaf|].
+          cbv zeta. apply cg_sim_fold; [exact IH|]. left. reflexivity.
+        + rewrite (cg_explore_none keep o flags l1) by exact E1. apply cg_sim_none.
+    Qed.
+  End Simulation.
+
+  Lemma cg_run_sim keep o flags l1 l2 k items : cg_lim_le l1 l2 ->
+    cg_sim (cg_run valueof keep o flags l1 k items) (cg_run valueof keep o flags l2 k items).
+  Proof.
+    intros Hl. rewrite !cg_run_eq. apply cg_sim_explore; [exact Hl|]. left. reflexivity.
+  Qed.
+
+  Lemma cg_objv_best o (st : @cg_state A) : cg_bv_ok o st -> objv o (cg_best st) = cg_bestv st.
+  Proof.
+    unfold cg_bv_ok, objv. destruct (cg_best st) as [b|]; intros [H _]; rewrite H; reflexivity.
+  Qed.
+
+  Theorem cg_monotone_gen : forall keep o flags k items l1 l2, cg_lim_le l1 l2 ->
+    better_or_equal (objv o (cg valueof keep o flags l2 k items))
+                    (objv o (cg valueof keep o flags l1 k items)).
+  Proof.
+    intros keep o flags k items l1 l2 Hl. unfold cg.
+    rewrite !cg_objv_best by apply cg_run_bv_ok.
+    destruct (cg_run_sim keep o flags l1 l2 k items Hl) as [E|(_ & Hb & _)].
+    - rewrite E. apply boe_refl.
+    - exact Hb.
+  Qed.
+
+  Theorem cg_monotone : forall keep o flags k items n m, (n <= m)%nat ->
+    better_or_equal (objv o (cg valueof keep o flags (Some m) k items))
+                    (objv o (cg valueof keep o flags (Some n) k items)).
+  Proof. intros keep o flags k items n m H. apply cg_monotone_gen. exact H. Qed.
+
+  Theorem cg_monotone_none : forall keep o flags k items n,
+    better_or_equal (objv o (cg valueof keep o flags None k items))
+                    (objv o (cg valueof keep o flags (Some n) k items)).
+  Proof. intros keep o flags k items n. apply cg_monotone_gen. exact Logic.I. Qed.
+
+  (** a limited run that was not halted (by the limit or otherwise) is the unlimited run *)
+  Theorem cg_limit_prefix : forall keep o flags k items n,
+    cg_stop (cg_run valueof keep o flags (Some n) k items) = false ->
+    cg_run valueof keep o flags (Some n) k items = cg_run valueof keep o flags None k items.
+  Proof.
+    intros keep o flags k items n Hs.
+    destruct (cg_run_sim keep o flags (Some n) None k items Logic.I) as [E|(Hs' & _)]; [exact E|].
+    congruence.
+  Qed.
+
+  (** the first solution of a limited run is the first solution of the unlimited run *)
+  Lemma cg_first_limit keep o flags k items l f :
+    cg_first (cg_run valueof keep o flags l k items) = Some f ->
+    cg_first (cg_run valueof keep o flags None k items) = Some f.
+  Proof.
+    intros E. destruct (cg_run_sim keep o flags l None k items Logic.I) as [E'|(_ & _ & Hf)].
+    - rewrite <- E'. exact E.
+    - apply Hf. exact E.
+  Qed.
+
+  Section LimitNone.
+    Variables (keep : bool) (o : objective) (flags : cg_flags) (k : nat) (glb : option Z) (n : nat).
+    Notation explore l := (cg_explore valueof keep o flags l k glb).
+
+    Lemma cg_enter_ticks l (st st1 : @cg_state A) rest d b : cg_enter l st = Some st1 ->
+      (cg_ticks st1 <= cg_ticks (explore l rest d b st))%nat.
+    Proof.
+      intros E. destruct rest as [|x t].
+      - rewrite cg_explore_nil, cg_leaf_eq, E. destruct (lt_bestv _ _); cbn [cg_ticks]; lia.
+      - rewrite cg_explore_cons, E. destruct (cg_h3_cond _ _ _ _).
+        + apply (cg_ticks_mono keep o flags l k glb [] O).
+        + cbv zeta. etransitivity; [|apply cg_ticks_mono_fold]. cbn [cg_ticks]. lia.
+    Qed.
+
+    Lemma cg_enter_big (st st1 : @cg_state A) : cg_enter None st = Some st1 ->
+      (cg_ticks st1 <= n)%nat -> cg_enter (Some n) st = Some st1.
+    Proof.
+      unfold cg_enter. destruct (cg_stop st); [discriminate|]. cbv zeta.
+      intros H Ht. inversion H; subst st1. cbn [cg_ticks] in *.
+      destruct (Nat.ltb n _) eqn:E; [|reflexivity]. apply Nat.ltb_lt in E. lia.
+    Qed.
+
+    Lemma cg_enter_none_stop (st : @cg_state A) : cg_enter None st = None -> cg_stop st = true.
+    Proof. unfold cg_enter. destruct (cg_stop st); [auto|discriminate]. Qed.
+
+    Lemma cg_leaf_big (b : bins A) st : (cg_ticks (cg_leaf o None glb b st) <= n)%nat ->
+      cg_leaf o (Some n) glb b st = cg_leaf o None glb b st.
+    Proof.
+      intros Ht. destruct (cg_enter None st) as [st1|] eqn:E.
+      - pose proof (cg_enter_ticks None st st1 [] O b E) as Ht1. rewrite cg_explore_nil in Ht1.
+        rewrite !cg_leaf_eq, E, (cg_enter_big st st1 E) by lia. reflexivity.
+      - apply cg_enter_none_stop in E.
+        rewrite !cg_leaf_eq, !cg_enter_stopped by exact E. reflexivity.
+    Qed.
+
+    Lemma cg_explore_big : forall rest d b st,
+      (cg_ticks (explore None rest d b st) <= n)%nat ->
+      explore (Some n) rest d b st = explore None rest d b st.
+    Proof.
+      induction rest as [|x t IH]; intros d b st Ht.
+      - rewrite !cg_explore_nil in *. apply cg_leaf_big. exact Ht.
+      - destruct (cg_enter None st) as [st1|] eqn:E.
+        + pose proof (cg_enter_ticks None st st1 (x :: t) d b E) as Ht1.
+          rewrite !cg_explore_cons, E, (cg_enter_big st st1 E) by lia.
+          rewrite cg_explore_cons, E in Ht.
+          destruct (cg_h3_cond _ _ _ _); [apply cg_leaf_big; exact Ht|].
+          cbv zeta in *.
+          revert Ht. generalize (mk_cg (cg_best st1) (cg_bestv st1)
+            (snd (cg_children valueof keep o flags k (rev (range k)) b (sums b) x
+                    (zsum (map valueof t)) d None (cg_bestv st1) (cg_seen st1)))
+            false (cg_ticks st1) (cg_first st1)).
+          generalize (rev (fst (cg_children valueof keep o flags k (rev (range k)) b (sums b) x
+                    (zsum (map valueof t)) d None (cg_bestv st1) (cg_seen st1)))).
+          intros cs. induction cs as [|c cs IHcs]; intros s Hs; cbn [fold_left] in *; [reflexivity|].
+          pose proof (cg_ticks_mono_fold keep o flags None k glb t (S d) cs (explore None t (S d) c s)) as Hm.
+          rewrite IH by lia. apply IHcs. exact Hs.
+        + apply cg_enter_none_stop in E.
+          rewrite !cg_explore_stopped by exact E. reflexivity.
+    Qed.
+  End LimitNone.
+
+  (** with a large enough limit the run is the unlimited run (whole final state) *)
+  Theorem cg_limit_none : forall keep o flags k items,
+    exists N, forall n, (N <= n)%nat ->
+    cg_run valueof keep o flags (Some n) k items = cg_run valueof keep o flags None k items.
+  Proof.
+    intros keep o flags k items.
+    exists (cg_ticks (cg_run valueof keep o flags None k items)). intros n Hn.
+    rewrite !cg_run_eq. apply cg_explore_big. rewrite <- cg_run_eq. exact Hn.
+  Qed.
 End CGProofs.
